@@ -74,6 +74,25 @@ def StopsAtError {σ : Type} (t : Trans σ ε ρ) : Prop :=
     allOk pre = true →
     t.need st (pre ++ .error e :: rest) (driverDemand (t.run st (pre ++ .error e :: rest))) ≤ pre.length + 1
 
+/-- a consumer that asks for `d` items never called again after it had received an `Err`:
+    the first `d - 1` items it got were rows (the driver's `collect`, and — proved — every operator
+    of the repaired tree towards its inputs) -/
+def Calls (s : Stream ε ρ) (d : Nat) : Prop := allOk (s.take (d - 1)) = true
+
+/-- the input pulls (an operator's `next()` on the guard of an input) that returned an `Err` -/
+def errPulls (tr : List (Handed ε ρ)) : Nat :=
+  tr.countP (fun h => !h.toGuard && !Item.isOk h.item)
+
+/-- query level (C33, bounded extra work, in pulls): while the driver collects the result,
+    * nowhere in the plan tree is anything pulled from an iterator that has already returned an
+      `Err` to the same consumer (no hand-over is `late`), and
+    * the pulls that return an `Err` — after the first failing check these are the only pulls
+      there are — number at most the length of the operator path (`Plan.depth`): the error
+      travels up one `next()` per level, no operator does further work on its inputs. -/
+def BoundedExtraWork (S : Sem χ ρ ν ε κ α) (Q : Quirks) (L : LimEnv ε) (params : ρ) (p : Plan χ ρ ε α) : Prop :=
+  (∀ h ∈ trace false S Q L .root params p (driverDemand (runL S Q L .root params p)), h.late = false) ∧
+  errPulls (trace false S Q L .root params p (driverDemand (runL S Q L .root params p))) ≤ p.depth
+
 end
 
 /-! ## C19 -/
